@@ -160,6 +160,9 @@ type Sched struct {
 	hash     uint64
 	altbuf   []alt
 	pools    map[*sync.Pool][]any
+	pins     map[uintptr]any
+	chq      map[uintptr][]uint64 // per channel: identities of the values in flight (sender id, sender op count)
+	seqs     map[any]uint64       // per lock / atomic site: running hash of the access sequence
 }
 
 type sigReg struct {
@@ -200,6 +203,9 @@ func Run(opts Options, body func()) *Result {
 		tmap:     map[*time.Timer]*vtimer{},
 		kmap:     map[*time.Ticker]*vtimer{},
 		pools:    map[*sync.Pool][]any{},
+		chq:      map[uintptr][]uint64{},
+		pins:     map[uintptr]any{},
+		seqs:     map[any]uint64{},
 		finished: make(chan struct{}),
 		pairDone: make(chan struct{}, 1),
 		now:      opts.StartTime,
@@ -332,10 +338,17 @@ func (s *Sched) mix(vals ...uint64) {
 	s.hash = h
 }
 
+var siteHashes sync.Map
+
 func strHash(str string) uint64 {
+	if v, ok := siteHashes.Load(str); ok {
+		return v.(uint64)
+	}
 	h := fnv.New64a()
 	h.Write([]byte(str))
-	return h.Sum64()
+	x := h.Sum64()
+	siteHashes.Store(str, x)
+	return x
 }
 
 func (g *G) observe(vals ...uint64) {
@@ -625,10 +638,58 @@ func (s *Sched) apply(a alt) {
 	switch g.kind {
 	case opLock:
 		s.lockState(g.obj).held = true
+		s.touchSeq(g, g.obj)
 	case opRLock:
 		s.lockState(g.obj).readers++
+		s.touchSeq(g, g.obj)
+	case opSend:
+		s.chanMoved(g, g.ch, true)
+	case opRecv:
+		s.chanMoved(g, g.ch, false)
+	case opSelect:
+		if a.caseIdx >= 0 {
+			c := g.cases[a.caseIdx]
+			s.chanMoved(g, c.ch, c.send)
+		}
+	}
+	if a.partner != nil {
+		p := a.partner
+		switch {
+		case p.selIdx >= 0 && len(p.cases) > 0:
+			c := p.cases[p.selIdx]
+			s.chanMoved(p, c.ch, c.send)
+		case p.ch.ptr != 0:
+			s.chanMoved(p, p.ch, g.kind == opRecv || (g.kind == opSelect && a.caseIdx >= 0 && !g.cases[a.caseIdx].send))
+		}
 	}
 	g.kind = opNone
+}
+
+// touchSeq makes the acquirer's history depend on the whole sequence of earlier accesses to obj.
+func (s *Sched) touchSeq(g *G, obj any) {
+	h := s.seqs[obj]
+	g.observe(h)
+	h ^= uint64(g.id)<<32 | uint64(g.nops)
+	h *= 1099511628211
+	s.seqs[obj] = h + 1
+}
+
+// chanMoved tracks value identities through channels: a receiver observes which send it received.
+func (s *Sched) chanMoved(g *G, c chanRef, send bool) {
+	if c.ptr == 0 {
+		return
+	}
+	if send {
+		s.chq[c.ptr] = append(s.chq[c.ptr], uint64(g.id)<<32|uint64(g.nops))
+		return
+	}
+	q := s.chq[c.ptr]
+	if len(q) == 0 {
+		g.observe(0x5e)
+		return
+	}
+	g.observe(q[0])
+	s.chq[c.ptr] = q[1:]
 }
 
 func (s *Sched) lockState(obj any) *lockState {
@@ -735,7 +796,15 @@ func mkref(c any) chanRef {
 	if !v.IsValid() || v.IsNil() {
 		return chanRef{}
 	}
-	return chanRef{ptr: v.Pointer(), lenf: v.Len, capn: v.Cap()}
+	ptr := v.Pointer()
+	// pin every channel seen during a session: its address keys the closed set and the value-identity queues, so it
+	// must not be reused by a later allocation while the session lasts
+	if s := cur.Load(); s != nil {
+		if _, ok := s.pins[ptr]; !ok {
+			s.pins[ptr] = c
+		}
+	}
+	return chanRef{ptr: ptr, lenf: v.Len, capn: v.Cap()}
 }
 
 // Go starts f as a managed goroutine.
@@ -951,6 +1020,7 @@ func Yield(site string) {
 	if s == nil {
 		return
 	}
+	s.touchSeq(g, site)
 	g.kind, g.site = opRun, site
 	s.resched(g)
 }
@@ -961,7 +1031,30 @@ func After[T any](v T, site string) T {
 	if s == nil {
 		return v
 	}
-	g.observe(strHash(fmt.Sprint(any(v))))
+	switch x := any(v).(type) {
+	case bool:
+		if x {
+			g.observe(11)
+		} else {
+			g.observe(12)
+		}
+	case int32:
+		g.observe(uint64(x))
+	case int64:
+		g.observe(uint64(x))
+	case uint32:
+		g.observe(uint64(x))
+	case uint64:
+		g.observe(x)
+	default:
+		rv := reflect.ValueOf(any(v))
+		if rv.IsValid() && (rv.Kind() == reflect.Pointer || rv.Kind() == reflect.UnsafePointer) && rv.IsNil() {
+			g.observe(13)
+		} else {
+			g.observe(14)
+		}
+	}
+	s.touchSeq(g, site)
 	g.kind, g.site = opRun, site
 	s.resched(g)
 	return v
@@ -1098,6 +1191,13 @@ func ReflectSelect(cases []reflect.SelectCase, site string) (int, reflect.Value,
 	}
 	cs := make([]Case, len(cases))
 	hasDefault := false
+	for _, c := range cases {
+		if c.Chan.IsValid() && !c.Chan.IsNil() {
+			if _, ok := s.pins[c.Chan.Pointer()]; !ok {
+				s.pins[c.Chan.Pointer()] = c.Chan.Interface()
+			}
+		}
+	}
 	for i, c := range cases {
 		switch c.Dir {
 		case reflect.SelectRecv:
